@@ -10,6 +10,7 @@ import (
 	"math/rand"
 
 	"github.com/golang/geo/r1"
+	"github.com/golang/geo/r3"
 	"github.com/golang/geo/s1"
 	"github.com/golang/geo/s2"
 
@@ -30,6 +31,7 @@ func Run(m *mon.M) {
 	m.Require("relations.compared", 10000)
 	m.Require("reader.short_reads", 20000)
 	m.Stream("polygon", m.N(40000, 1500000), polygon)
+	m.Stream("zeros", m.N(4000, 200000), zerosCase)
 	m.Stream("simple", m.N(60000, 3000000), simple)
 	m.Stream("loop", m.N(8000, 400000), loop)
 	// number of distinct snap levels chosen by the encoder
@@ -439,6 +441,74 @@ func polygon(c *mon.Case) {
 	}
 	if p.NumLoops() > 0 && c.I%8 == 0 {
 		sameRelations(c, tag, p, &q, centers, math.Max(p.CapBound().Radius().Radians(), 1e-9), det)
+	}
+}
+
+// zerosCase: polygons and loops whose vertices are the six axis points (the centres of the face cells) and
+// other cell centres lying in a coordinate plane, written with +0 or -0 in the zero coordinates at random: the
+// encoder may replace a vertex by "the centre of cell X" only if that reproduces the very same bits.
+func zerosCase(c *mon.Case) {
+	r := c.R
+	sz := func() float64 {
+		if r.Intn(2) == 0 {
+			return math.Copysign(0, -1)
+		}
+		return 0
+	}
+	sg := func() float64 { return float64(1 - 2*r.Intn(2)) }
+	vs := []s2.Point{{Vector: r3.Vector{X: sg(), Y: sz(), Z: sz()}}, {Vector: r3.Vector{X: sz(), Y: sg(), Z: sz()}}, {Vector: r3.Vector{X: sz(), Y: sz(), Z: sg()}}}
+	if r.Intn(2) == 0 { // a cell centre in a coordinate plane between two of the axis points, with its zero re-signed
+		i := r.Intn(3)
+		a, b := vs[i], vs[(i+1)%3]
+		mid := s2.CellFromPoint(s2.Point{Vector: a.Add(b.Vector).Normalize()}).ID().Parent(1 + r.Intn(29)).Point()
+		for _, x := range []*float64{&mid.X, &mid.Y, &mid.Z} {
+			if *x == 0 {
+				*x = sz()
+			}
+		}
+		if mid != a && mid != b {
+			vs = append(vs[:i+1:i+1], append([]s2.Point{mid}, vs[i+1:]...)...)
+		}
+	}
+	if s2.RobustSign(vs[0], vs[1], vs[2]) < 0 {
+		for i, j := 0, len(vs)-1; i < j; i, j = i+1, j-1 {
+			vs[i], vs[j] = vs[j], vs[i]
+		}
+	}
+	l := s2.LoopFromPoints(append([]s2.Point(nil), vs...))
+	if l.Validate() != nil {
+		c.Count("zeros.invalid_loop_skipped", 1)
+		return
+	}
+	p := s2.PolygonFromLoops([]*s2.Loop{l})
+	var b bytes.Buffer
+	if err := p.Encode(&b); err != nil {
+		c.Violation("Polygon/Encode/error", "Encode failed: "+err.Error(), nil)
+		return
+	}
+	enc := b.Bytes()
+	det := map[string]any{"vertices": gen.HexAll(vs...), "bytes": hexb(enc)}
+	c.Distinct(gen.Bits(vs...)...)
+	c.Count(fmt.Sprintf("zeros.format_v%d", enc[0]), 1)
+	var q s2.Polygon
+	if err := q.Decode(src(c, enc)); err != nil {
+		c.Violation(fmt.Sprintf("Polygon/v%d/Decode/error-on-own-encoding", enc[0]), err.Error(), det)
+		return
+	}
+	if q.NumLoops() != 1 || q.Loop(0).NumVertices() != p.Loop(0).NumVertices() {
+		c.Violation(fmt.Sprintf("Polygon/v%d/vertex-count/wrong-answer", enc[0]), "loop or vertex count differs after the round trip", det)
+		return
+	}
+	for i := 0; i < p.Loop(0).NumVertices(); i++ {
+		if a, d := p.Loop(0).Vertex(i), q.Loop(0).Vertex(i); !bitsEq(a, d) {
+			c.Violation(fmt.Sprintf("Polygon/v%d/vertex-bits/sign-of-zero", enc[0]), fmt.Sprintf("vertex %d: decoded %s, encoded %s (not the same bits)", i, gen.Hex(d), gen.Hex(a)), det)
+			break
+		}
+	}
+	var b2 bytes.Buffer
+	q.Encode(&b2)
+	if !bytes.Equal(b2.Bytes(), enc) {
+		c.Violation(fmt.Sprintf("Polygon/v%d/re-encode-differs/wrong-answer", enc[0]), "Encode(Decode(Encode(x))) != Encode(x)", det)
 	}
 }
 
